@@ -649,3 +649,65 @@ def value_codec_is_delegated(model, cls_q: str) -> Optional[str]:
                 if q in model.classes and q != cls_q and not model.is_subclass(cls_q, q):
                     return f"{fi.qualname.split('sansldap.')[-1]}: {_norm(x)[:60]}"
     return None
+
+
+def string_encoding_defaults(model, run, rule: str) -> None:
+    """LDAPString is UTF-8 (RFC 4511 section 4.1.2): every `string_encoding` default of the option dataclasses, and the value the session
+    hands to them, folds to the UTF-8 codec.  Any other default encodes DNs, attribute descriptions and diagnostic texts in
+    octets that are not an LDAPString (or cannot encode them at all), for every caller that did not choose an encoding."""
+    import ast as _ast
+    import codecs
+    from .fold import Folder, Unfoldable
+    from .srcmodel import norm as _norm, walk_no_nested as _walk
+    folder = Folder(model)
+    n = 0
+    for cq, c in sorted(model.classes.items()):
+        if not c.is_dataclass:
+            continue
+        for f in model.dataclass_fields(cq):
+            if f.name != "string_encoding" or f.owner != cq:
+                continue
+            n += 1
+            val = None
+            if f.default is not None:
+                try:
+                    val = folder.fold(f.default, c.module)
+                except Unfoldable:
+                    val = None
+            ok = isinstance(val, str)
+            if ok:
+                try:
+                    ok = codecs.lookup(val).name == "utf-8"
+                except LookupError:
+                    ok = False
+            run.ob(rule, ok, {"class": cq.split(".")[-1], "default": val})
+            if not ok:
+                run.fail(Finding(rule, cq, f"string_encoding={val!r}", f"{cq.split('sansldap.')[-1]}.string_encoding defaults to {val!r}: text packed with default options is not UTF-8 as LDAPString "
+                                 "requires, and text outside that codec cannot be packed at all", model.loc(c.module, c.node)))
+    # the session's own choice
+    for fq, fi in sorted(model.functions.items()):
+        if fi.module != "sansldap._session" or isinstance(fi.node, _ast.Lambda):
+            continue
+        for x in _walk(fi.node):
+            if isinstance(x, _ast.Call):
+                for k in x.keywords:
+                    if k.arg == "string_encoding":
+                        v = k.value
+                        if isinstance(v, _ast.Name):
+                            bs = [a.value for a in _walk(fi.node) if isinstance(a, _ast.Assign) and any(isinstance(t_, _ast.Name) and t_.id == v.id for t_ in a.targets)]
+                            v = bs[0] if len(bs) == 1 else v
+                        try:
+                            val = folder.fold(v, fi.module)
+                        except Unfoldable:
+                            continue
+                        n += 1
+                        ok = isinstance(val, str)
+                        if ok:
+                            try:
+                                ok = codecs.lookup(val).name == "utf-8"
+                            except LookupError:
+                                ok = False
+                        run.ob(rule, ok, {"function": fq.split("sansldap.")[-1], "string_encoding": val})
+                        if not ok:
+                            run.fail(Finding(rule, fq, f"string_encoding={val!r}", f"{fq.split('sansldap.')[-1]} configures string_encoding={val!r}: the session's messages are not LDAPString (UTF-8)", model.loc(fi.module, x)))
+    run.floor("string_encoding defaults", n, 4)
